@@ -33,13 +33,15 @@ CLAIMS["C14"] = (
     "chain builder, handlers, options), for every syn oracle and over the determiner table regenerated from /repo: determiners see only "
     "top-level token shapes (group contents and literal text invisible); a scan stops only at a first-matching determiner after a "
     "complete operand, never inside an incomplete one, and never reorders or loses tokens; an operand without a top-level split point "
-    "followed by [~] operator [>>>] is returned exactly with the flags of exactly that operator (round trip of one unit); overlapping "
+    "followed by [~] operator [>>>] is returned exactly with the flags of exactly that operator (round trip of one unit); whole chains of "
+    "unary operators, operand-less operators, `op >>>` wrappers and `<<<` with arbitrary ~ flags (balanced per step): parse ∘ render = id "
+    "(branch_roundtrip_partial); overlapping "
     "operators resolve to the longest documented one for all continuations/spacings; Rust's own shift/comparison/logic/assignment "
     "operators are never DSL operators. Tie: K1-parse (model + syn's answers vs the real parser: outcome class and structure) and a "
     "round-trip oracle on the real parser (structured programs over adversarial operands, rendered and re-parsed).",
     NOTE_COMMON + "syn is an oracle: what it accepts as Expr/Type is computed by the real syn for every compared input and quantified over in "
-    "the theorems; the chain-level round trip (whole branches, wrappers, let, handlers, options) is decided by the oracle runs on the real "
-    "parser and by K1-parse, the Lean round-trip theorem covers one unit (operand + operator + flags).",
+    "the theorems; the chain-level round trip with wrappers, =>[], ^@, <->, empty-operand operators, let, several branches, handlers and "
+    "options is decided by the oracle runs on the real parser and by K1-parse (the Lean chain theorem covers the unary operators).",
     "Lean 4 proof on a parser model with syn as oracle + K1-parse differential + round-trip oracle on the real parser", "§7 C14")
 CLAIMS["C15"] = (
     "Totality: the model pipeline is a total Lean function whose every expect()/unwrap()/panic! site is an explicit outcome; theorems "
@@ -69,7 +71,9 @@ K2NOTE = ("K2 compiles instrumented programs with the real macros and compares v
 ASYNC_NOTE = ("Async variants: the refinement theorems speak about the canonical schedule (operands polled to completion in turn); other schedules "
               "are covered by the poll-level model of Props/C09 (non-try) and observed by K2-async. ")
 CLAIMS["C03"] = (REFINE + "Property theorems (Props/C03): on the calling thread the events are sorted by (step, captures before chains) for every "
-                 "program; a chain's input is its own branch's previous result. Interleavings of branch threads: Props/C08 (Lin). " + K2NOTE,
+                 "program; a chain's input is its own branch's previous result; barrier_every_schedule (Lemmas/LinLoop): for EVERY global order of "
+                 "events admitted by the schedule relation Lin (caller in program order, each forked chain in its own order after its fork, a join "
+                 "only after its thread finished) the step numbers of a whole run never decrease - all programs, worlds, sizes, panics included. " + K2NOTE,
                  NOTE_COMMON + ASYNC_NOTE, "Lean 4 refinement proof + order theorems on the reference loop; K2 barrier oracle on real executions", "§7 C03")
 CLAIMS["C04"] = (REFINE + "Props/C04: element i of a non-try result is what branch i's own last chain returned (∀ profiles); a step only touches "
                  "the positions of its active branches; handler and result are built from the same list. " + K2NOTE,
@@ -86,7 +90,8 @@ CLAIMS["C11"] = (REFINE + "Props/C11: the hoisting operator set equals the docum
 CLAIMS["C12"] = (REFINE + "Props/C12: every capture of step k sees exactly the named branches' latest values (wrapped in try macros, finished "
                  "branches included), nothing in step 0; the generated code's visibility equals the reference's (invariant of the refinement). "
                  "`let` does not change the result: by the refinement the result depends on names only through what user code reads. " + K2NOTE,
-                 NOTE_COMMON + ASYNC_NOTE + "let_result_invariant is not stated as a separate Lean theorem (K2 compares results of named and unnamed programs).",
+                 NOTE_COMMON + ASYNC_NOTE + "let_result_invariant: two invocations differing only in their `let` names, against user code that does not "
+                 "read the names, have the same result and events (reference loop; carried to the code by the refinement).",
                  "Lean 4 refinement proof + visibility theorems; K2 snapshots of names in scope", "§7 C12")
 CLAIMS["C13"] = (REFINE + "Props/C13: then/map/and_then semantics of the reference (called exactly once with the values in branch order iff "
                  "applicable, never after a failure); gen returns the rejection exactly for (non-try ∧ map/and_then) and (try ∧ then), ∀ inputs. "
@@ -126,7 +131,8 @@ CLAIMS["C08"] = ("Props/C08 (Lean 4): a multi-branch step of a thread-spawning m
                  "<caller>_join_<branch index>, all forks before any join; a single-branch step forks nothing; the barrier theorem over the "
                  "schedule relation Lin: for 'fork all, join all, continue with rest', EVERY global order of events is an interleaving of "
                  "exactly these threads' complete bodies followed by a schedule of rest (caller waits; nothing of a later step earlier), and "
-                 "conversely every interleaving of the bodies is a possible schedule (all alive at once, none waits for a sibling). "
+                 "conversely every interleaving of the bodies is a possible schedule (all alive at once, none waits for a sibling); lifted to whole "
+                 "runs by loop_every_schedule (LinLoop). "
                  + REFINE + "K2: thread name/id of every callback, Barrier(n) gates that deadlock a serialised expansion (20 s watchdog), "
                  "nested spawn macros to depth 3.",
                  NOTE_COMMON + "That the OS actually runs the threads, and the meaning of std::thread::Builder::spawn/join, are modelled (Sem), "
